@@ -586,6 +586,13 @@ func writeReplay(opt verifyOpts, o *Obligation, problem, replayNote string) stri
 			script = string(b)
 		}
 	}
+	if o.Goal != nil && o.enc != nil {
+		o.Goal.walk(func(x *Term) {
+			if why, ok := o.enc.w.unresolved[x.Op]; ok && problem == "" {
+				problem = "the clause cannot be evaluated at this point of the code (" + why + "): it names something the code no longer has here, so it is not established"
+			}
+		})
+	}
 	rec := map[string]any{
 		"property":      opt.prop,
 		"obligation":    o.Name,
